@@ -76,6 +76,12 @@ func ruleRAW(w *World, r *RuleResult) {
 				continue
 			}
 			key := fmt.Sprintf("%s | dest=%s operand=%s", name, f.Params[d].Name(), f.Params[x].Name())
+			if !w.mayAliasAtSomeCall(f, d, x, 0) {
+				// an internal helper whose every call site hands it provably distinct objects (distinct
+				// locals, a local and a parameter's field, …): the aliasing the property speaks of cannot arise
+				r.ok(key, w.pos(f.Pos()), "never called with these two parameters aliased (all call sites resolved)", false)
+				continue
+			}
 			fr := w.flow(f, d, x)
 			if len(fr.Hazards) == 0 {
 				nontriv := fr.WritesAnything
@@ -652,4 +658,61 @@ func ruleGlobalsCensus(w *World, r *RuleResult) {
 			r.ok(key, w.pos(g.Pos()), "written only by initialisation code; read-only afterwards", true)
 		}
 	}
+}
+
+// mayAliasAtSomeCall: can parameters d and x of f denote the same object at
+// some call? Exported functions: yes (the caller is arbitrary). Unexported:
+// only if some resolved call site passes arguments whose provenance may
+// coincide — the same value, a common root, or two parameters of the caller
+// that may themselves alias. Anything unresolved answers yes.
+func (w *World) mayAliasAtSomeCall(f *ssa.Function, d, x int, depth int) bool {
+	if f.Object() == nil || f.Object().Exported() || depth > 4 {
+		return true
+	}
+	callers := w.callersOf(f)
+	if len(callers) == 0 {
+		return true
+	}
+	for _, c := range callers {
+		args := c.Common().Args
+		if c.Common().IsInvoke() || len(args) != len(f.Params) {
+			return true
+		}
+		if _, isCall := c.(*ssa.Call); !isCall {
+			return true // go/defer: not reasoned about
+		}
+		g := c.Parent()
+		p := w.newProv(g, nil)
+		rd, rx := p.roots(args[d]), p.roots(args[x])
+		if len(rd) == 0 || len(rx) == 0 {
+			return true
+		}
+		for _, a := range rd {
+			for _, b := range rx {
+				switch {
+				case a.Root.Kind == RAlloc && b.Root.Kind == RAlloc:
+					if a.Root.Node == b.Root.Node && a.Field == b.Field {
+						return true
+					}
+				case a.Root.Kind == RParam && b.Root.Kind == RParam:
+					if a.Root.Param == b.Root.Param {
+						if a.Field == b.Field {
+							return true
+						}
+					} else if a.Field == b.Field && w.mayAliasAtSomeCall(g, a.Root.Param, b.Root.Param, depth+1) {
+						return true
+					}
+				case (a.Root.Kind == RAlloc && b.Root.Kind == RParam) || (a.Root.Kind == RParam && b.Root.Kind == RAlloc):
+					// a local of the caller is not reachable from its parameters
+				case (a.Root.Kind == RAlloc || a.Root.Kind == RFresh) && (b.Root.Kind == RGlobal || b.Root.Kind == RGlobalObj),
+					(b.Root.Kind == RAlloc || b.Root.Kind == RFresh) && (a.Root.Kind == RGlobal || a.Root.Kind == RGlobalObj):
+					// a local is not a package-level object
+				case a.Root.Kind == RNil || b.Root.Kind == RNil:
+				default:
+					return true
+				}
+			}
+		}
+	}
+	return false
 }
